@@ -41,10 +41,19 @@ def step_meta(P):
         sd = P.source_dir_of(p)
         rel = p[len(sd) + 1:] if sd else p
         rel = rel[:-len(".veryl")] + ".sv"
+        dst = None
         if t["type"] == "directory":
-            out_src[os.path.join(t["path"], rel)] = p
+            dst = os.path.join(t["path"], rel)
         elif t["type"] == "source":
-            out_src[p[:-len(".veryl")] + ".sv"] = p
+            dst = p[:-len(".veryl")] + ".sv"
+        if dst:
+            out_src[dst] = p
+        sm = P.opts.get("sourcemap_target", {"type": "target"})
+        if sm["type"] == "directory":
+            if t["type"] == "directory":
+                out_src[os.path.join(sm["path"], rel)] = p          # + ".map" is stripped by the lookup
+            elif dst:
+                out_src[os.path.join(sm["path"], dst)] = p
     return {"out_src": out_src, "src_kinds": src_kinds, "target": t["type"]}
 
 
@@ -93,7 +102,8 @@ def signature(m, step, argv, files, last_ok_files, changed_at, check_steps, si, 
 
     output mismatches: <kind>:<sv|map|other>:<generic_definition|plain>:<source_unchanged|checked_since_change|source_changed>
         (generic_definition = the output's source declares a generic module; checked_since_change = the source changed
-        since the last successful incremental build/test and a `veryl check` has seen the new content since)
+        since the last successful incremental build/test and a `veryl check` has seen the new content since; when the source
+        is unchanged the state says whether Veryl.toml changed: config_checked_since_change | config_changed | source_unchanged)
     filelist:          <kind>:filelist:<how>:<cmd class>
     diagnostics:       diag_<extra|missing|...>:<severity>:<code>:<scenario>
     exit status:       exit_differs:<target type>-target:inc=<a>:cln=<b>"""
@@ -132,14 +142,21 @@ def signature(m, step, argv, files, last_ok_files, changed_at, check_steps, si, 
             else:
                 how = "different_entries"
         return f"{kind}:filelist:{how}:{cmdcls}"
+    # did Veryl.toml change since the last successful incremental build, and has a `veryl check` run under the new config?
+    if files.get("Veryl.toml") == (last_ok_files or {}).get("Veryl.toml"):
+        cfg = "source_unchanged"
+    elif any(changed_at.get("Veryl.toml", 0) <= j < si for j in check_steps):
+        cfg = "config_checked_since_change"
+    else:
+        cfg = "config_changed"
     src = meta.get("out_src", {}).get(rel[:-4] if rel.endswith(".map") else rel)
     if src is None:
         where = "dependency" if rel.startswith("dependencies/") else f"{target}-target"
-        return f"{kind}:{m['cls']}:{where}"
+        return f"{kind}:{m['cls']}:{where}:{cfg}"
     kinds = meta.get("src_kinds", {}).get(src, "")
     gen = "generic_definition" if "gen" in kinds.split("+") else "plain"
     if files.get(src) == (last_ok_files or {}).get(src):
-        state = "source_unchanged"
+        state = cfg
     elif any(changed_at.get(src, 0) <= j < si for j in check_steps):
         state = "checked_since_change"
     else:
@@ -320,8 +337,8 @@ def main():
             run.inconclusive(r)
         run.finish([("steps_compared", 1)])
 
-    ncases = args.budget("cases", 12, 120)
-    nsteps = args.budget("steps", 12, 30)
+    ncases = args.budget("cases", 10, 120)
+    nsteps = args.budget("steps", 10, 30)
     jobs = int(args.extra.get("jobs", min(12, os.cpu_count() or 4)))
     opts = {"hand_edit": bool(int(args.extra.get("hand_edit", 0))), "rm_map": bool(int(args.extra.get("rm_map", 0))),
             "sabotage": bool(int(args.extra.get("sabotage", 0))),
@@ -357,12 +374,12 @@ def main():
                 run.violation(v["signature"], v["what"], v["replay"])
     run.extra["cases"] = ncases
     run.extra["steps_per_case"] = nsteps
-    # floors: quick tier observes ~140 compared steps, ~90 steps with a restore; thorough scales with cases*steps
-    scale = max(1, (ncases * nsteps) // 144) if not args.extra.get("cases") and not args.extra.get("steps") else 0
+    # floors: the quick tier (10 cases x 10 steps) observes ~95 compared steps, ~60 steps with a restore; thorough scales with cases*steps
+    scale = max(1, (ncases * nsteps) // 100) if not args.extra.get("cases") and not args.extra.get("steps") else 0
     if scale:
-        floors = [("steps_compared", 40 * scale), ("steps_with_restore", 20 * scale), ("fragments_restored", 60 * scale),
-                  ("steps_both_ok", 15 * scale), ("output_files_compared", 100 * scale), ("diag_records_compared", 5 * scale),
-                  ("distinct_nontrivial", max(3, 3 * scale))]
+        floors = [("steps_compared", 28 * scale), ("steps_with_restore", 14 * scale), ("fragments_restored", 40 * scale),
+                  ("steps_both_ok", 10 * scale), ("output_files_compared", 70 * scale), ("diag_records_compared", 4 * scale),
+                  ("distinct_nontrivial", max(3, 2 * scale))]
     else:
         floors = [("steps_compared", 1)]
     run.finish(floors)
